@@ -487,8 +487,28 @@ def run_pure(mod, tier=None, seed=None, replay=None):
         chk.note("coq build failed:\n" + tail)
         broken.append({"kind": "proof", "detail": tail})
 
+    # 1b. translator-tie theorems (generated terms = reference model).  A lost tie alone is not an alarm
+    # (a harmless rewrite can break it): the correspondence is then run at thorough strength.
+    if hasattr(mod, "TIE_TARGETS"):
+        if tie_T == "ok":
+            ok_tie, log_tie = coq_make(mod.TIE_TARGETS, timeout=600, force=mod.TIE_TARGETS)
+            tie_ass = parse_assumptions(log_tie)
+            chk.coverage["tie_theorems"] = count_statements([t[:-1] for t in mod.TIE_TARGETS])
+            chk.coverage["tie_print_assumptions"] = tie_ass
+            if not ok_tie or any(a != "Closed under the global context" for a in tie_ass):
+                tail = "\n".join(log_tie.splitlines()[-12:])
+                tie_T = "broken: the generated kernels no longer provably equal the reference model:\n" + tail
+                chk.note("translator tie lost: " + tail)
+            else:
+                chk.coverage["obligations"] = chk.coverage.get("obligations", 0) + len(chk.coverage["tie_theorems"])
+                chk.coverage["discharged"] = chk.coverage.get("discharged", 0) + len(chk.coverage["tie_theorems"])
+        if tie_T != "ok":
+            chk.note("escalating the correspondence to thorough strength because the translator tie is lost")
+
     # 2. cases + oracle
     n = mod.N_THOROUGH if chk.tier == "thorough" else mod.N_QUICK
+    if hasattr(mod, "TIE_TARGETS") and tie_T != "ok":
+        n = max(n, mod.N_THOROUGH)
     results = execute_cases(chk, mod, n, "main")
     unknown_viol = report_oracle(chk, mod, results)
 
